@@ -254,25 +254,25 @@ func doubleClose() {
 }
 
 var lits = []lit{
-	{"lost-update P=0", sched.Bounds{}, 0, lostUpdate, []string{"2"}},
-	{"lost-update P=1", sched.Bounds{P: 1}, 0, lostUpdate, []string{"1", "2"}},
-	{"locked-update P=3", sched.Bounds{P: 3}, 0, lockedUpdate, []string{"2"}},
-	{"lock-inversion P=0", sched.Bounds{}, 0, lockInversion, []string{"ok"}},
-	{"lock-inversion P=1", sched.Bounds{P: 1}, 0, lockInversion, []string{"deadlock", "ok"}},
-	{"select-both Sel=0", sched.Bounds{}, 0, selectBoth, []string{"a"}},
-	{"select-both Sel=1", sched.Bounds{Sel: 1}, 0, selectBoth, []string{"a", "b"}},
-	{"rw-recursive P=0", sched.Bounds{}, 0, rwRecursive, []string{"ok"}},
-	{"rw-recursive P=1", sched.Bounds{P: 1}, 0, rwRecursive, []string{"deadlock", "ok"}},
-	{"check-then-act P=0", sched.Bounds{}, 0, checkThenAct, []string{"refused left=0", "sent+drained left=0"}},
-	{"check-then-act P=2", sched.Bounds{P: 2}, 0, checkThenAct, []string{"refused left=0", "sent left=1", "sent+drained left=0"}},
-	{"timer-vs-close", sched.Bounds{P: 1, Sel: 1}, 1, timerVsClose, []string{"quit"}},
-	{"timer-only", sched.Bounds{}, 1, timerOnly, []string{"500ms"}},
-	{"half-close P=2", sched.Bounds{P: 2}, 0, halfClose, []string{"re:hello|<nil>"}},
-	{"closed-conn-read", sched.Bounds{P: 1}, 0, closedConnRead, []string{"closed", "eof"}},
-	{"map-order E=1", sched.Bounds{Env: 1}, 0, mapOrder, []string{"abc", "cba"}},
-	{"once P=2", sched.Bounds{P: 2}, 0, onceOrder, []string{"1"}},
-	{"quiescent P=2", sched.Bounds{P: 2}, 0, quiescent, []string{"2"}},
-	{"double-close", sched.Bounds{P: 1}, 0, doubleClose, []string{"", "ok"}},
+	{"lost-update P=0", sched.Bounds{F: -1}, 0, lostUpdate, []string{"2"}},
+	{"lost-update P=1", sched.Bounds{F: -1, P: 1}, 0, lostUpdate, []string{"1", "2"}},
+	{"locked-update P=3", sched.Bounds{F: -1, P: 3}, 0, lockedUpdate, []string{"2"}},
+	{"lock-inversion P=0", sched.Bounds{F: -1}, 0, lockInversion, []string{"ok"}},
+	{"lock-inversion P=1", sched.Bounds{F: -1, P: 1}, 0, lockInversion, []string{"deadlock", "ok"}},
+	{"select-both Sel=0", sched.Bounds{F: -1}, 0, selectBoth, []string{"a"}},
+	{"select-both Sel=1", sched.Bounds{F: -1, Sel: 1}, 0, selectBoth, []string{"a", "b"}},
+	{"rw-recursive P=0", sched.Bounds{F: -1}, 0, rwRecursive, []string{"ok"}},
+	{"rw-recursive P=1", sched.Bounds{F: -1, P: 1}, 0, rwRecursive, []string{"deadlock", "ok"}},
+	{"check-then-act P=0", sched.Bounds{F: -1}, 0, checkThenAct, []string{"refused left=0", "sent+drained left=0"}},
+	{"check-then-act P=2", sched.Bounds{F: -1, P: 2}, 0, checkThenAct, []string{"refused left=0", "sent left=1", "sent+drained left=0"}},
+	{"timer-vs-close", sched.Bounds{F: -1, P: 1, Sel: 1}, 1, timerVsClose, []string{"quit"}},
+	{"timer-only", sched.Bounds{F: -1}, 1, timerOnly, []string{"500ms"}},
+	{"half-close P=2", sched.Bounds{F: -1, P: 2}, 0, halfClose, []string{"re:hello|<nil>"}},
+	{"closed-conn-read", sched.Bounds{F: -1, P: 1}, 0, closedConnRead, []string{"closed", "eof"}},
+	{"map-order E=1", sched.Bounds{F: -1, Env: 1}, 0, mapOrder, []string{"abc", "cba"}},
+	{"once P=2", sched.Bounds{F: -1, P: 2}, 0, onceOrder, []string{"1"}},
+	{"quiescent P=2", sched.Bounds{F: -1, P: 2}, 0, quiescent, []string{"2"}},
+	{"double-close", sched.Bounds{F: -1, P: 1}, 0, doubleClose, []string{"", "ok"}},
 }
 
 func init() {
